@@ -689,10 +689,13 @@ static void battery(rnode *root) {
 }
 
 /* ================================================================== part (a): all two-byte prefixes */
-static size_t fill3(unsigned char *p, size_t k) {   /* filler that tiles iff k % 3 == 0: elements 02 01 AA */
+static size_t fill3(unsigned char *p, size_t k) {
+	/* filler that tiles iff k % 3 == 0: elements 02 01 AA. Long fillers (k >= 4096) use 257-byte elements
+	 * 02 FF AA*255 (tiles iff k % 257 == 0, e.g. 65535) because list append in the library is O(n) per child */
 	static const unsigned char F[3] = {0x02, 0x01, 0xAA};
 	size_t i;
-	for (i = 0; i < k; i++) p[i] = F[i % 3];
+	if (k < 4096) { for (i = 0; i < k; i++) p[i] = F[i % 3]; return k; }
+	for (i = 0; i < k; i++) p[i] = (i % 257 == 0) ? 0x02 : (i % 257 == 1) ? 0xFF : 0xAA;
 	return k;
 }
 
